@@ -65,12 +65,21 @@ func mkD() md.D {
 	return md.D{A: "pre-A", B: 901, C: "pre-C", D: "pre-D", N: md.Nest{X: "pre-NX", Y: 902, Z: "pre-NZ", In: md.Inner{W: "pre-NW", V: 905}}, P: &md.Nest{X: "pre-PX", Y: 904, Z: "pre-PZ"}, Base: md.Base{E1: "pre-E1", E2: "pre-E2"}, Q: 903, R: "pre-R", L: []string{"pre-L"}, M: map[string]string{"pre": "M"}, G: 907, L2: []int64{908}}
 }
 
+// mkSD: a source of the destination's own type (methods with the same type on both sides)
+func mkSD(set int) md.D {
+	s := md.D{A: "a-src", B: 12, C: "c-src", D: "d-src", N: md.Nest{X: "nx-src", Y: 22, Z: "nz-src", In: md.Inner{W: "nw-src", V: 24}}, Base: md.Base{E1: "e1-src", E2: "e2-src"}, Q: 51, R: "r-src", L: []string{"l1-src", "l2-src", "l3-src"}, M: map[string]string{"k1": "m1-src", "k2": "m2-src"}, G: 61, L2: []int64{91, 92, 93}}
+	if set == 0 {
+		s.P = &md.Nest{X: "px-src", Y: 32, Z: "pz-src", In: md.Inner{W: "pw-src", V: 34}}
+	}
+	return s
+}
+
 func mkLD() conv.LD {
 	return conv.LD{A: "pre-A", B: 901, C: "pre-C", D: "pre-D", N: md.Nest{X: "pre-NX", Y: 902, Z: "pre-NZ", In: md.Inner{W: "pre-NW", V: 905}}, P: &md.Nest{X: "pre-PX", Y: 904, Z: "pre-PZ"}, Base: md.Base{E1: "pre-E1", E2: "pre-E2"}, Q: 903, R: "pre-R", L: []string{"pre-L"}, M: map[string]string{"pre": "M"}, G: 907, L2: []int64{908}}
 }
 
 `)
-	var names []string
+	var names, aliased []string
 	for _, mm := range meta.Methods {
 		if mm.Sub {
 			continue
@@ -79,6 +88,14 @@ func mkLD() conv.LD {
 		mkS, mkD, dT := "mkS", "mkD", "md.D"
 		if mm.Local {
 			mkS, mkD, dT = "mkLS", "mkLD", "conv.LD"
+		}
+		if mm.Same {
+			mkS = "mkSD"
+		}
+		// operand set 2: the caller passes the same object as destination and source
+		aliasable := mm.Same && mm.Style == "arg" && mm.SrcPtr && mm.Recv == ""
+		if aliasable {
+			aliased = append(aliased, mm.Name)
 		}
 		fmt.Fprintf(&b, "func run%s(set int, failing []string) (res rt.Result) {\n", mm.Name)
 		b.WriteString("\trt.Reset(failing)\n\tres.Failing = failing\n")
@@ -110,6 +127,10 @@ func mkLD() conv.LD {
 			}
 			b.WriteString("\tres.Start = rt.Snap(dd)\n\tdp := &dd\n\tres.DstPtr = fmt.Sprintf(\"%p\", dp)\n")
 			args = append(args, "dp")
+			if aliasable {
+				b.WriteString("\tsp := &s\n\tif set == 2 {\n\t\tsp = dp\n\t\tres.Src0 = rt.Snap(dd)\n\t\tres.SrcPtr = fmt.Sprintf(\"%p\", dp)\n\t}\n")
+				srcArg = "sp"
+			}
 		} else {
 			fmt.Fprintf(&b, "\tres.Start = rt.Snap(%s{})\n", dT)
 		}
@@ -137,12 +158,20 @@ func mkLD() conv.LD {
 			}
 			b.WriteString("\tres.Dst = rt.Snap(d)\n")
 		}
-		b.WriteString("\tres.Err = rt.DescribeErr(err)\n\tres.Src1 = rt.Snap(s)\n\treturn\n}\n\n")
+		if aliasable {
+			b.WriteString("\tres.Err = rt.DescribeErr(err)\n\tres.Src1 = rt.Snap(*sp)\n\treturn\n}\n\n")
+		} else {
+			b.WriteString("\tres.Err = rt.DescribeErr(err)\n\tres.Src1 = rt.Snap(s)\n\treturn\n}\n\n")
+		}
 	}
 	b.WriteString("func main() {\n\tvar reports []rt.FuncReport\n\tfor set := 0; set < 2; set++ {\n\t\tset := set\n")
 	for i, n := range names {
 		fmt.Fprintf(&b, "\t\treports = append(reports, rt.Explore(%q, set, func(f []string) rt.Result { return run%s(set, f) }, 8, 64, %d))\n", n, n, 1000+i)
 	}
-	b.WriteString("\t}\n\tif err := json.NewEncoder(os.Stdout).Encode(reports); err != nil {\n\t\tfmt.Fprintln(os.Stderr, err)\n\t\tos.Exit(3)\n\t}\n}\n")
+	b.WriteString("\t}\n")
+	for i, n := range aliased {
+		fmt.Fprintf(&b, "\treports = append(reports, rt.Explore(%q, 2, func(f []string) rt.Result { return run%s(2, f) }, 8, 64, %d))\n", n, n, 2000+i)
+	}
+	b.WriteString("\tif err := json.NewEncoder(os.Stdout).Encode(reports); err != nil {\n\t\tfmt.Fprintln(os.Stderr, err)\n\t\tos.Exit(3)\n\t}\n}\n")
 	return b.String()
 }
